@@ -767,7 +767,7 @@ fn c11_build(cfg: &[u16]) -> Built {
     // nicknames that differ only in letter case are different users for this server
     prof.nicks.push("N0".into());
     prof.nicks.push("N1".into());
-    c.default_modes = ["", "", "", "w", "i", "o", "O", "ow"][s.pick(8)].to_string();
+    c.default_modes = ["", "", "", "w", "i", "o", "O", "ow", "iw", "iO", "iow"][s.pick(11)].to_string();
     Built { cfg: c, prof, prelude_users: users, setup: vec![] }
 }
 
